@@ -522,5 +522,42 @@ theorem compileDM_eq_stab (ne np nc : Nat) (det : Bool) (script : List Bool) (op
     rw [hm, hc]
     rfl
 
+/-! ### the register array is the final record -/
+
+theorem setRec_eq (r : List Nat) (c v : Nat) : Noise.setRec r c v = r.set c v := rfl
+
+theorem finalRecord_length (nc : Nat) (w : List (Nat × Bool)) : (finalRecord nc w).length = nc := by
+  simp [finalRecord]
+
+theorem finalRecord_get (nc : Nat) (w : List (Nat × Bool)) (i : Nat) (hi : i < nc) :
+    (finalRecord nc w)[i]'(by rw [finalRecord_length]; exact hi)
+      = ((w.filter fun x => x.1 = i).getLast?.map (·.2)).getD false := by
+  simp [finalRecord]
+
+/-- the register array of the executable model is the final record of the run (as 0/1) -/
+theorem regsOf_eq_finalRecord (nc : Nat) (w : List (Nat × Bool)) :
+    regsOf nc w = (finalRecord nc w).map fun b => if b then 1 else 0 := by
+  induction w using List.reverseRecOn with
+  | nil =>
+    apply List.ext_getElem
+    · simp [regsOf, finalRecord]
+    · intro i h1 h2
+      simp [regsOf, finalRecord]
+  | append_singleton w x ih =>
+    obtain ⟨c, v⟩ := x
+    rw [regsOf_append, ih, setRec_eq]
+    apply List.ext_getElem
+    · simp [finalRecord]
+    · intro i h1 h2
+      have hi : i < nc := by simpa [finalRecord] using h2
+      rw [List.getElem_set]
+      simp only [List.getElem_map]
+      rw [finalRecord_get nc _ i hi, finalRecord_get nc _ i hi]
+      by_cases hci : c = i
+      · subst hci
+        simp [List.filter_append]
+      · rw [if_neg hci]
+        simp [List.filter_append, hci]
+
 end DMX
 end Graphiq
